@@ -210,7 +210,8 @@ def run_case(case, monitor, storage_factory=None, hooks=None, extra_rounds=6, ke
     Extra schedule actions: ["restart", mode] (mode: intact | cursor_removed | cursor_rejected),
     ["crash", kind, k] (kind: storage_before | provider_after; the process dies there, then a new engine is
     started over the surviving storage and providers), ["faults", plan] / ["faults_off"].
-    oracles: "index" (C11 on every state), "storage" (C08 after every step), "cursor" (C06)."""
+    oracles: "index" (C11 on every state), "storage" (C08 after every step; entries still in the dirty set are skipped),
+    "storage_strict" (the same, entries in the dirty set compared too: nothing may be left uncommitted at a step boundary), "cursor" (C06)."""
     fl = E.Flavour.from_key(case["flavour"])
     E.install(case.get("hash_mult", 1))
     E.reset_serials()
@@ -231,7 +232,7 @@ def run_case(case, monitor, storage_factory=None, hooks=None, extra_rounds=6, ke
     index_violations = compare_storage = None
     if "index" in oracles:
         from .state_oracle import index_violations
-    if "storage" in oracles:
+    if "storage" in oracles or "storage_strict" in oracles:
         from .storage_oracle import compare_storage_with_memory as compare_storage
     prev = [None, None]
     obs = []
@@ -268,7 +269,7 @@ def run_case(case, monitor, storage_factory=None, hooks=None, extra_rounds=6, ke
             if bad:
                 pseudo.append((len(obs), 101, bad[:3]))
         if compare_storage is not None and storage is not None:
-            bad = compare_storage(eng.cs.state, storage, eng.cs.state._tag)
+            bad = compare_storage(eng.cs.state, storage, eng.cs.state._tag, skip_dirty="storage_strict" not in oracles)
             if bad:
                 pseudo.append((len(obs), 102, [repr(b)[:200] for b in bad[:3]]))
 
